@@ -368,6 +368,10 @@ impl Mapper<Size1GiB> for RecursivePageTable<'_> {
         if p3[page.p3_index()].is_unused() {
             return Err(FlagUpdateError::PageNotMapped);
         }
+        if !p3[page.p3_index()].flags().contains(Flags::HUGE_PAGE) {
+            // the entry points to a level 2 table, not to a 1GiB page
+            return Err(FlagUpdateError::ParentEntryHugePage);
+        }
         p3[page.p3_index()].set_flags(flags | Flags::HUGE_PAGE);
 
         Ok(MapperFlush::new(page))
@@ -418,6 +422,10 @@ impl Mapper<Size1GiB> for RecursivePageTable<'_> {
 
         if p3_entry.is_unused() {
             return Err(TranslateError::PageNotMapped);
+        }
+        if !p3_entry.flags().contains(PageTableFlags::HUGE_PAGE) {
+            // the entry points to a level 2 table, not to a 1GiB page
+            return Err(TranslateError::ParentEntryHugePage);
         }
 
         PhysFrame::from_start_address(p3_entry.addr())
@@ -502,11 +510,19 @@ impl Mapper<Size2MiB> for RecursivePageTable<'_> {
         if p3[page.p3_index()].is_unused() {
             return Err(FlagUpdateError::PageNotMapped);
         }
+        if p3[page.p3_index()].flags().contains(Flags::HUGE_PAGE) {
+            // the page is part of a 1GiB mapping; there is no level 2 table to look at
+            return Err(FlagUpdateError::ParentEntryHugePage);
+        }
 
         let p2 = unsafe { &mut *(p2_ptr(page, self.recursive_index)) };
 
         if p2[page.p2_index()].is_unused() {
             return Err(FlagUpdateError::PageNotMapped);
+        }
+        if !p2[page.p2_index()].flags().contains(Flags::HUGE_PAGE) {
+            // the entry points to a level 1 table, not to a 2MiB page
+            return Err(FlagUpdateError::ParentEntryHugePage);
         }
 
         p2[page.p2_index()].set_flags(flags | Flags::HUGE_PAGE);
@@ -575,12 +591,20 @@ impl Mapper<Size2MiB> for RecursivePageTable<'_> {
         if p3_entry.is_unused() {
             return Err(TranslateError::PageNotMapped);
         }
+        if p3_entry.flags().contains(PageTableFlags::HUGE_PAGE) {
+            // the page is part of a 1GiB mapping; there is no level 2 table to look at
+            return Err(TranslateError::ParentEntryHugePage);
+        }
 
         let p2 = unsafe { &*(p2_ptr(page, self.recursive_index)) };
         let p2_entry = &p2[page.p2_index()];
 
         if p2_entry.is_unused() {
             return Err(TranslateError::PageNotMapped);
+        }
+        if !p2_entry.flags().contains(PageTableFlags::HUGE_PAGE) {
+            // the entry points to a level 1 table, not to a 2MiB page
+            return Err(TranslateError::ParentEntryHugePage);
         }
 
         PhysFrame::from_start_address(p2_entry.addr())
@@ -670,11 +694,25 @@ impl Mapper<Size4KiB> for RecursivePageTable<'_> {
         if p3[page.p3_index()].is_unused() {
             return Err(FlagUpdateError::PageNotMapped);
         }
+        if p3[page.p3_index()]
+            .flags()
+            .contains(PageTableFlags::HUGE_PAGE)
+        {
+            // the page is part of a 1GiB mapping; there is no level 2 table to look at
+            return Err(FlagUpdateError::ParentEntryHugePage);
+        }
 
         let p2 = unsafe { &mut *(p2_ptr(page, self.recursive_index)) };
 
         if p2[page.p2_index()].is_unused() {
             return Err(FlagUpdateError::PageNotMapped);
+        }
+        if p2[page.p2_index()]
+            .flags()
+            .contains(PageTableFlags::HUGE_PAGE)
+        {
+            // the page is part of a 2MiB mapping; there is no level 1 table to look at
+            return Err(FlagUpdateError::ParentEntryHugePage);
         }
 
         let p1 = unsafe { &mut *(p1_ptr(page, self.recursive_index)) };
@@ -770,12 +808,20 @@ impl Mapper<Size4KiB> for RecursivePageTable<'_> {
         if p3_entry.is_unused() {
             return Err(TranslateError::PageNotMapped);
         }
+        if p3_entry.flags().contains(PageTableFlags::HUGE_PAGE) {
+            // the page is part of a 1GiB mapping; there is no level 2 table to look at
+            return Err(TranslateError::ParentEntryHugePage);
+        }
 
         let p2 = unsafe { &*(p2_ptr(page, self.recursive_index)) };
         let p2_entry = &p2[page.p2_index()];
 
         if p2_entry.is_unused() {
             return Err(TranslateError::PageNotMapped);
+        }
+        if p2_entry.flags().contains(PageTableFlags::HUGE_PAGE) {
+            // the page is part of a 2MiB mapping; there is no level 1 table to look at
+            return Err(TranslateError::ParentEntryHugePage);
         }
 
         let p1 = unsafe { &*(p1_ptr(page, self.recursive_index)) };
